@@ -135,11 +135,40 @@ class CallGraph:
         return None
 
 
+def strip_generic_args(name):
+    """`HashMap::<K, V, S, A>::iter` -> `HashMap::iter`; `<HashMap<K, V> as IntoIterator>::into_iter` -> `<HashMap as IntoIterator>::into_iter`."""
+    out = []
+    i = 0
+    n = len(name)
+    while i < n:
+        c = name[i]
+        if c == "<":
+            prev = name[i - 1] if i > 0 else ""
+            if prev.isalnum() or prev == "_" or name[max(0, i - 2):i] == "::":
+                depth = 0
+                while i < n:
+                    if name[i] == "<":
+                        depth += 1
+                    elif name[i] == ">" and (i == 0 or name[i - 1] != "-"):
+                        depth -= 1
+                        if depth == 0:
+                            break
+                    i += 1
+                i += 1
+                if out and out[-1] == ":" and len(out) > 1 and out[-2] == ":":
+                    out = out[:-2]
+                continue
+        out.append(c)
+        i += 1
+    return "".join(out)
+
+
 def classify(name, effects):
-    """Effect classes of an external callee by prefix/substring tables."""
+    """Effect classes of an external callee: substring match on the generic-free path."""
     out = set()
+    norm = strip_generic_args(name)
     for cls, pats in effects["classes"].items():
         for p in pats:
-            if p in name:
+            if p in norm:
                 out.add(cls)
     return out
